@@ -132,7 +132,10 @@ def observe(bdir, ks, cs, ring, wrap, want_bytes=False, timeout=120, prelude=Fal
         pre_path = pre_bytes = None
         if prelude:
             ptid = 1                      # "thread.1" sorts before "thread.<TID>"
-            pevs = b"".join(obs.ev("OB.", BASE + 50 + 3 * i, struct.pack("<I", 900 + i)) for i in range(14))
+            # (prelude == "empty": a stream without a single event, as a thread that only calls
+            # ovni_thread_init and ovni_thread_free leaves behind)
+            pevs = b"" if prelude == "empty" else \
+                b"".join(obs.ev("OB.", BASE + 50 + 3 * i, struct.pack("<I", 900 + i)) for i in range(14))
             pdir = obs.write_stream(td, LOOM, TID, ptid, obs.thread_meta(ptid, TID, LOOM), pevs)
             pre_path = os.path.join(pdir, "stream.obs")
             pre_bytes = open(pre_path, "rb").read()
@@ -246,6 +249,9 @@ def judge(t, o):
     if st in ("fail", "die") and not o["msg"]:
         p.append(("silent-failure", "ovnisort failed without an ERROR/FATAL message"))
     exp = t["exp"]
+    if st == "ok" and o["oid"] == t["iorder"] and not t["isorted"]:
+        p.append(("ok-but-unsorted", "exit 0 but the stream is not sorted (TLC: Sorted(out) is false): "
+                                     "when it cannot sort it must fail and say so"))
     if exp == "sorted" and st != "ok":
         p.append(("must-sort", "only regions are unsorted and the look back (-n %d) suffices, but ovnisort "
                                "did not succeed (%s): %s" % (t["n"], st, o["_stderr"][-300:])))
@@ -375,7 +381,8 @@ def tlc_jobs(tier):
     for cfg, what in (("OvniSort_Neg_Unstable.cfg", "unstable sort"),
                       ("OvniSort_Neg_NoFullCheck.cfg", "full ring taken for the start of the stream"),
                       ("OvniSort_Neg_NoRebuild.cfg", "ring not rebuilt after a sort"),
-                      ("OvniSort_Neg_LessEq.cfg", "<= instead of < in find_destination")):
+                      ("OvniSort_Neg_LessEq.cfg", "<= instead of < in find_destination"),
+                      ("OvniSort_Neg_NoFinalCheck.cfg", "exit 0 although the stream is still unsorted (pinned code)")):
         jobs.append({"name": "OvniSortMC/%s (%s; must fail)" % (cfg, what), "cfg": cfg, "env": {},
                      "neg": True, "workers": 2})
     return jobs
@@ -555,7 +562,8 @@ def _main(pid, tier):
         # ---- several streams in one trace: ovnisort keeps one look-back ring for the whole trace, every
         # stream must be sorted as if it were alone (prefer the cases that insert at the very start)
         multi = sorted(exported, key=lambda t: (t["fm"] != 1, t["exp"] != "sorted"))[:(1500 if tier == "quick" else 12000)]
-        mobs = core.pmap(lambda t: observe(bdir, t["k"], t["c"], t["n"], False, timeout=15, prelude=True), multi,
+        mobs = core.pmap(lambda t: observe(bdir, t["k"], t["c"], t["n"], False, timeout=15,
+                                           prelude="empty" if (len(t["k"]) + t["n"]) % 3 == 0 else True), multi,
                          workers=max(4, core.NCPU - 6))
         magree = 0
         for t, o in zip(multi, mobs):
